@@ -101,6 +101,7 @@ type w1Cfg struct {
 	MaxTimeLagMs    int  `json:"position_max_time_lag_ms,omitempty"`
 	ExpiredSubMs    int  `json:"expired_sub_close_delay_ms,omitempty"`
 	QueueInitialCap int  `json:"queue_initial_cap,omitempty"`
+	CSR             bool `json:"client_side_refresh,omitempty"` // ConnectReply.ClientSideRefresh + OnRefresh handler (token = seconds to prolong)
 	JoinLeaveFailPm int  `json:"broker_join_leave_fail_pm,omitempty"` // Broker.PublishJoin / PublishLeave errors
 	PresDelayPm     int  `json:"presence_delay_pm,omitempty"` // per mille of AddPresence/RemovePresence calls that take simulated time (a slow presence backend)
 }
@@ -238,8 +239,15 @@ type w1SimClient struct {
 	stalledAtSeq      int64
 	nextTf, nextDelta bool
 	instances         []*w1Instance
+	refreshes         []w1Refresh // client-side refreshes granted by the OnRefresh handler
 	subCbs            []w1SubCb // invocation..return of every OnSubscribe completion callback
 	peerCloseSeq      int64     // the harness started closing the connection (peer close)
+}
+
+// w1Refresh: the OnRefresh handler granted a new expiry (seconds since the run started).
+type w1Refresh struct {
+	At     time.Duration
+	Expire time.Duration
 }
 
 // w1SubCb is the interval during which the completion callback of one subscribe command
@@ -649,6 +657,8 @@ func (cl *w1SimClient) runOp(op w1Op) bool {
 			cl.w.checkRecoverReply(cl, id, req)
 		}
 		return ok
+	case "refresh":
+		return cl.send(&protocol.Command{Id: cl.id(), Refresh: &protocol.RefreshRequest{Token: strconv.Itoa(op.N)}}, "refresh", "")
 	case "subref":
 		return cl.send(&protocol.Command{Id: cl.id(), SubRefresh: &protocol.SubRefreshRequest{Channel: op.Ch, Token: fmt.Sprintf("%d:false", op.DelayUs)}}, "sub_refresh", op.Ch)
 	case "unsub":
@@ -890,7 +900,7 @@ func (w *w1World) setup() error {
 		if e.Token == "" {
 			return ConnectReply{}, DisconnectInvalidToken
 		}
-		r := ConnectReply{Credentials: &Credentials{UserID: e.Token}, Labels: cl.spec.Labels, ClientSideRefresh: w.csr}
+		r := ConnectReply{Credentials: &Credentials{UserID: e.Token}, Labels: cl.spec.Labels, ClientSideRefresh: w.csr || cfg.CSR}
 		if cl.spec.ExpireInSec > 0 {
 			r.Credentials.ExpireAt = time.Now().Unix() + int64(cl.spec.ExpireInSec)
 		}
@@ -985,6 +995,19 @@ func (w *w1World) setup() error {
 			cb(RPCReply{Data: []byte(`{}`)}, nil)
 		})
 		c.OnMessage(func(e MessageEvent) { cl.cb("message", "", 0) })
+		if cfg.CSR {
+			c.OnRefresh(func(e RefreshEvent, cb RefreshCallback) {
+				cl.cb("refresh", "", 0)
+				n, _ := strconv.Atoi(e.Token)
+				if !e.ClientSideRefresh || n <= 0 {
+					cb(RefreshReply{Expired: true}, nil)
+					return
+				}
+				exp := time.Now().Unix() + int64(n)
+				cl.refreshes = append(cl.refreshes, w1Refresh{At: w.s.Now(), Expire: time.Duration(exp-w.startUnix) * time.Second})
+				cb(RefreshReply{ExpireAt: exp}, nil)
+			})
+		}
 		c.OnSubRefresh(func(e SubRefreshEvent, cb SubRefreshCallback) {
 			cl.cb("sub_refresh", e.Channel, 0)
 			delay := 0
@@ -1588,6 +1611,7 @@ func w1Gen(c *simrt.Choice, prop, tier string) any {
 		cfg.StaleMs = []int{1500, 3000}[c.Intn(2)]
 		cfg.ExpiredDelayMs = []int{500, 1000}[c.Intn(2)]
 		cfg.PresenceMs = 25000
+		cfg.CSR = c.Intn(2) == 0
 	}
 	if prop == "C02" || prop == "C03" {
 		cfg.HistorySize = []int{2, 4, 10}[c.Intn(3)]
@@ -1671,10 +1695,35 @@ func w1Gen(c *simrt.Choice, prop, tier string) any {
 				continue
 			case 1:
 				cl.NoPong = true
+				if c.Intn(2) == 0 {
+					// never answers a ping but keeps sending other commands
+					cl.Ops = []w1Op{{K: "connect"}}
+					for k := 0; k < 14+c.Intn(8); k++ {
+						cl.Ops = append(cl.Ops, w1Op{K: "rpc"}, w1Op{K: "sleep", DelayUs: []int{150000, 250000}[c.Intn(2)]})
+					}
+					sc.Clients = append(sc.Clients, cl)
+					continue
+				}
 			case 2:
 				cl.PongDelayMs = []int{100, 300, 600, 1200}[c.Intn(4)]
 			case 3:
 				cl.ExpireInSec = 2 + c.Intn(3)
+				if cfg.CSR {
+					// client-side refresh: one refresh in time, then a second one that is
+					// late but inside the grace delay, or too late, or none
+					n1 := 1 + c.Intn(2)
+					cl.Ops = []w1Op{{K: "connect"}, {K: "sleep", DelayUs: []int{300000, 1200000}[c.Intn(2)]}, {K: "refresh", N: n1}}
+					graceUs := cfg.ExpiredDelayMs * 1000
+					switch c.Intn(3) {
+					case 0:
+						cl.Ops = append(cl.Ops, w1Op{K: "sleep", DelayUs: n1*1000000 + graceUs/2}, w1Op{K: "refresh", N: 2})
+					case 1:
+						cl.Ops = append(cl.Ops, w1Op{K: "sleep", DelayUs: n1*1000000 + graceUs + 1300000}, w1Op{K: "refresh", N: 2})
+					}
+					cl.Ops = append(cl.Ops, w1Op{K: "sleep", DelayUs: 4000000})
+					sc.Clients = append(sc.Clients, cl)
+					continue
+				}
 			}
 			cl.Ops = []w1Op{{K: "connect"}}
 			if c.Intn(2) == 0 {
